@@ -11,13 +11,13 @@ what `print_ast` does for every line width — the lexer produces the same token
 text.  Hence every text theorem transfers to every width. -/
 theorem broken_same_tokens (uni : Bool) (sepB : List Nat → Nat → List Nat) (sepF : List Nat → List Nat) (hsep : SepOK sepB sepF)
     (t : Skel) (hw : t.WF Gen.table Gen.ladder) (hn : t.NamesOK Gen.symbolsC) (p : List Nat) :
-    lex Gen.symbolsC (printTextW Gen.table Gen.ladder uni sepB sepF p t) = lex Gen.symbolsC (printText Gen.table Gen.ladder uni t) :=
+    lex Gen.symbolsC (printTextW Gen.table Gen.ladder Gen.symbolsC uni sepB sepF p t) = lex Gen.symbolsC (printText Gen.table Gen.ladder Gen.symbolsC uni t) :=
   broken_same_tokens_core text_ok uni hsep t hw hn p
 
 /-- lexing and parsing a line-broken text gives back the skeleton -/
 theorem parse_print_broken (uni : Bool) (sepB : List Nat → Nat → List Nat) (sepF : List Nat → List Nat) (hsep : SepOK sepB sepF)
     (t : Skel) (hw : t.WF Gen.table Gen.ladder) (hn : t.NamesOK Gen.symbolsC) (p : List Nat) :
-    parseText Gen.table Gen.ladder Gen.symbolsC (printTextW Gen.table Gen.ladder uni sepB sepF p t) = some t := by
+    parseText Gen.table Gen.ladder Gen.symbolsC (printTextW Gen.table Gen.ladder Gen.symbolsC uni sepB sepF p t) = some t := by
   have h := parse_print_text uni t hw hn
   unfold parseText at h ⊢
   rw [broken_same_tokens uni sepB sepF hsep t hw hn p]
@@ -27,11 +27,11 @@ theorem parse_print_broken (uni : Bool) (sepB : List Nat → Nat → List Nat) (
 example : SepOK (fun _ _ => [10, 32, 32]) (fun _ => [10]) :=
   ⟨fun _ _ c hc => by simp at hc; rcases hc with rfl | rfl <;> decide, fun _ => ⟨by simp, fun c hc => by simp at hc; rw [hc]; decide⟩⟩
 
-example : printTextW Gen.table Gen.ladder false (fun _ _ => [10, 32]) (fun _ => [10]) []
+example : printTextW Gen.table Gen.ladder Gen.symbolsC false (fun _ _ => [10, 32]) (fun _ => [10]) []
       (.ite (.atom [65]) (.bin 6 (.atom [120]) (.atom [121])) (.atom [122]))
     = [105, 102, 32, 10, 32, 65, 32, 10, 32, 116, 104, 101, 110, 32, 10, 32, 120, 32, 10, 32, 43, 32, 10, 32, 121, 10,
        101, 108, 115, 101, 32, 10, 32, 122] ∧
-    lex Gen.symbolsC (printTextW Gen.table Gen.ladder false (fun _ _ => [10, 32]) (fun _ => [10]) []
+    lex Gen.symbolsC (printTextW Gen.table Gen.ladder Gen.symbolsC false (fun _ _ => [10, 32]) (fun _ => [10]) []
       (.ite (.atom [65]) (.bin 6 (.atom [120]) (.atom [121])) (.atom [122])))
     = some [.kif, .id [65], .kthen, .id [120], .sym 10, .id [121], .kelse, .id [122]] := by decide +kernel
 
